@@ -123,6 +123,12 @@ def _same(a, b):
         return len(a.segs) == len(b.segs) and all(_same(x[0], y[0]) and x[1:] == y[1:] for x, y in zip(a.segs, b.segs))
     if isinstance(a, Ref) and isinstance(b, Ref):
         return a.oid == b.oid
+    if isinstance(a, E.ModelObj) and isinstance(b, E.ModelObj):
+        return a.kind == b.kind and set(a.f) == set(b.f) and all(_same(a.f[k], b.f[k]) for k in a.f)
+    if type(a).__name__ == "SymPt" and type(b).__name__ == "SymPt":
+        return _same(a.t, b.t) if (is_sym(a.t) or is_sym(b.t)) else a.t == b.t
+    if isinstance(a, tuple) and isinstance(b, tuple):
+        return len(a) == len(b) and all(_same(x, y) for x, y in zip(a, b))
     if is_sym(a) or is_sym(b) or isinstance(a, (Rope, Ref)) or isinstance(b, (Rope, Ref)):
         return False
     try:
